@@ -138,6 +138,42 @@ def replay(r):
     from tangermeme.tools.tomtom import tomtom
     if r.get("kind") in ("pairmax", "merge", "null"):
         return _replay_kernels(r)
+    if r.get("kind") == "rcflag":
+        # a truthy reverse_complement flag that is not the object True (numpy.bool_, 1) must behave like True
+        rs = numpy.random.RandomState(2)
+        Qs = [rs.dirichlet([0.5] * 4, size=l).T for l in (5, 7)]
+        Ts = [rs.dirichlet([0.5] * 4, size=l).T for l in (6, 8, 5)]
+        try:
+            want = tomtom(Qs, Ts, n_jobs=1, reverse_complement=True).numpy()
+            for flag in (numpy.bool_(True), 1, numpy.int64(1)):
+                got = tomtom(Qs, Ts, n_jobs=1, reverse_complement=flag).numpy()
+                if got.shape != want.shape or not numpy.array_equal(got, want):
+                    return True, "reverse_complement=%r (%s) gives a result of shape %s that differs from reverse_complement=True (shape %s)" % (flag, type(flag).__name__, got.shape, want.shape)
+            off = tomtom(Qs, Ts, n_jobs=1, reverse_complement=False).numpy()
+            for flag in (numpy.bool_(False), 0):
+                got = tomtom(Qs, Ts, n_jobs=1, reverse_complement=flag).numpy()
+                if got.shape != off.shape or not numpy.array_equal(got, off):
+                    return True, "reverse_complement=%r differs from reverse_complement=False" % (flag,)
+        except Exception as e:
+            return True, "tomtom raised %s: %s" % (type(e).__name__, e)
+        return False, "ok"
+    if r.get("kind") == "hashprep":
+        # targets in which some nucleotide row is constant over all pooled columns (A/T-only motifs): hashing must still work
+        rs = numpy.random.RandomState(4)
+        for trial in range(4):
+            Ts = []
+            for l in (4, 6, 5):
+                a = rs.randint(0, 5, size=l) / 4.0
+                Ts.append(numpy.array([a, numpy.zeros(l) + (0.0 if trial % 2 == 0 else 0.0), numpy.zeros(l), 1 - a]))
+            Q = Ts[1][:, 1:5].copy()
+            try:
+                a_ = tomtom([Q], Ts, n_jobs=1, n_target_bins=100).numpy()
+                b_ = tomtom([Q], Ts, n_jobs=1, n_target_bins=None).numpy()
+            except Exception as e:
+                return True, "tomtom with column hashing raised %s: %s on targets with a constant nucleotide row" % (type(e).__name__, e)
+            if not numpy.allclose(a_, b_, atol=1e-9):
+                return True, "hashed and un-hashed results differ on targets with a constant nucleotide row"
+        return False, "ok"
     if r.get("kind") == "hash":
         rs = numpy.random.RandomState(0)
         for trial in range(6):
@@ -540,6 +576,54 @@ def worker(cfg):
             return "returned"
         core.explore(body, stats=stats)
 
+    elif kind == "rcflag":
+        # the wrapper's `if reverse_complement:` statement under every truthy / falsy flag value a caller may pass, together with
+        # the int(flag) handed to the compiled core: the target list is doubled exactly when the core is told so
+        import ast as _ast
+        is_if = lambda st, text: isinstance(st, _ast.If) and text.startswith("if reverse_complement")
+        blk, info = ld.slice_function("tools.tomtom", "tomtom", is_if, is_if, ["Ts", "reverse_complement"], ["Ts"])
+        out.setdefault("functions", []).append(info)
+        lens = cfg["lens"]
+
+        def body(ctx):
+            for flag in (True, False, 1, 0, np.bool_(True), np.bool_(False), np.int64(1)):
+                Ts = [T.NDArray(np.array([[core.Real("t%d_%d_%d" % (n_, k, p)) for p in range(L_)] for k in range(4)], dtype=object), dtype="float64") for n_, L_ in enumerate(lens)]
+                (both,) = blk(list(Ts), flag)
+                ctx.stats.obligations += 1
+                if len(both) == (2 * len(lens) if int(flag) == 1 else len(lens)):
+                    ctx.stats.discharged += 1
+                else:
+                    add("rcflag:inconsistent", "reverse_complement=%r (%s): %d target matrices are handed to a core that is told reverse_complement=%d" % (flag, type(flag).__name__, len(both), int(flag)), dict(cfg))
+                    break
+            return "returned"
+        core.explore(body, stats=stats)
+
+    elif kind == "hashprep":
+        # binning of the target columns before hashing, on symbolic targets (a nucleotide row may be constant): every binned entry
+        # is an integer digit 0..n_target_bins-1 (no division by a zero range)
+        import ast as _ast
+        within = lambda nd, text: isinstance(nd, _ast.If) and text.startswith("if n_target_bins is not None")
+        blk, info = ld.slice_function("tools.tomtom", "tomtom", lambda st, text: text.startswith("T_min ="), lambda st, text: isinstance(st, _ast.Assign) and text.startswith("T_ints = numpy.around"),
+                                      ["T", "n_target_bins"], ["T_ints"], within=within)
+        out.setdefault("functions", []).append(info)
+        ntb, ncol = cfg["n_target_bins"], cfg["cols"]
+
+        def body(ctx):
+            t = np.empty((4, ncol), dtype=object)
+            for c in np.ndindex(4, ncol):
+                v = core.Real("t_%d_%d" % c)
+                ctx.assume(s_and(v >= 0, v <= 1))
+                t[c] = v
+            (ti,) = blk(T.NDArray(t.copy(), dtype="float64"), ntb)
+            cl = []
+            for v in ti.a.flat:
+                cl.append(s_and(v >= 0, v <= ntb - 1, s_or(*[v == d_ for d_ in range(ntb)])))
+            m = ctx.prove(s_and(*cl), "binned target entries are digits 0..n_target_bins-1")
+            if m is not None:
+                add("hashprep:not-a-digit", "a binned target entry is not an integer in 0..n_target_bins-1 (a nucleotide row that is constant over the pooled target columns divides by a zero range)", dict(cfg))
+            return "returned"
+        core.explore(body, stats=stats, max_paths=5000)
+
     elif kind == "merge":
         n = cfg["n"]
 
@@ -647,7 +731,7 @@ def configs(tier):
            dict(kind="bin_tail", nq=1, NT=2, n_bins=4, z_min=(-13, 10), z_max=(2, 5), counts=[1, 2]), dict(kind="bin_tail", nq=2, NT=2, n_bins=10, z_min=(-13, 10), z_max=(2, 5), counts=[1, 1]),
            dict(kind="bin_tail", nq=2, NT=3, n_bins=5, z_min=(-1, 1), z_max=(1, 4), counts=[2, 1, 1]),
            dict(kind="median", n=3, n_bins=3, counts=[1, 1, 1]), dict(kind="median", n=3, n_bins=4, counts=[1, 2, 1]), dict(kind="median", n=4, n_bins=3, counts=[1, 1, 1, 1]),
-           dict(kind="rclist", lens=[2, 1, 3])]
+           dict(kind="rclist", lens=[2, 1, 3]), dict(kind="rcflag", lens=[2, 1]), dict(kind="hashprep", n_target_bins=3, cols=2)]
     if not q:
         cf += [dict(kind="null", nq=2, n_bins=3, t_max=3, offset=2), dict(kind="null", nq=3, n_bins=2, t_max=3, offset=1), dict(kind="null", nq=3, n_bins=3, t_max=4, offset=1),
                dict(kind="pvalues", nq=3, T_lens=[2, 1], n_scores=6, offset=1, gmax=1), dict(kind="pvalues", nq=2, T_lens=[4], n_scores=4, offset=0, gmax=2),
